@@ -70,8 +70,8 @@ def gp(v, i):
 # single instance
 
 
-def single_layout(H, W, r, layout):
-    m = r + 4
+def single_layout(H, W, r, layout, margin=0.0):
+    m = max(r + 4, margin)
     if layout == 0:
         pts = [(m + 0.1 * (W - 2 * m), m + 0.15 * (H - 2 * m)), (m + 0.9 * (W - 2 * m), m + 0.35 * (H - 2 * m)), (m + 0.4 * (W - 2 * m), m + 0.9 * (H - 2 * m))]
         vis = [True, True, True]
@@ -93,12 +93,15 @@ def run_single(case, tmp):
     if not k4_free(H, W, mh, mw, [scale]):
         return "infeasible-k4", None
     r = max(3.0, 3.0 / (scale * eff))
-    if 2 * (r + 4) + 3 * r > min(H, W):
+    # integral refinement is biased where its patch is zero-padded (C07): keep keypoints >= half a patch (2.5 cells)
+    # away from the border of the output map when it is on
+    margin = (2.5 * stride / (scale * eff) + 1.0) if case["refinement"] == "integral" else 0.0
+    if 2 * max(r + 4, margin) + 3 * r > min(H, W):
         return "infeasible", None
     sk = S.make_skeleton(3)
     frames, truth = [], []
     for f in range(3):
-        pts = single_layout(H, W, r, (case["layout"] + f) % 2)
+        pts = single_layout(H, W, r, (case["layout"] + f) % 2, margin)
         frames.append({"image": S.render(H, W, [pts], radius=r), "instances": [pts]})
         truth.append(pts)
     slp = S.write_labels(tmp, frames, sk, name="s", embed=True)
